@@ -51,6 +51,7 @@ def derive_cm_table(ctx, chk, sc, ec, cls=SCORES, rule="R01.1"):
     table = {name: cell(ctx.ev, m, ij) for name, ij in CELLS.items()}
     table["_binary"] = res.attrs.get("binary")
     table["_matrix"] = m
+    table["_narrow_casts"] = [e for e in o.events if e["kind"] == "narrow_cast"]
     return table
 
 
@@ -540,7 +541,16 @@ def rates_from_cm(ctx, chk, metrics=("tpr", "fnr", "tnr", "fpr", "topr", "tonr")
 def buffer_width(ctx, chk, tab, sc, ec, rule="R01.1"):
     """The buffer that receives the counts: easy counts are declared, not materialised, and may exceed 2**31 (billions of impostor pairs)."""
     buf = tab.get("_matrix")
-    while isinstance(buf, App) and buf.fn == "store":
+    for e in tab.get("_narrow_casts", ()):
+        chk.violation(rule, CMQ, "%s/%s:narrow-cast" % (sc, ec), "the matrix of counts is cast to %s on the way into the ConfusionMatrix (line %s)" % (e.get("to"), getattr(e.get("node"), "lineno", "?")),
+                      "64-bit counts: a cell is a count of scored samples plus a declared easy count (billions of impostor pairs) and wraps around in a narrower integer",
+                      ctx.where(CMQ))
+        break
+    while isinstance(buf, App) and buf.fn in ("store", "fresh"):
+        if buf.fn == "fresh" and buf.kwd("dtype") == Const("narrowint"):
+            chk.violation(rule, CMQ, "%s/%s:buffer-width" % (sc, ec), "the counts are cast to a narrow integer: %s" % show(buf, 100),
+                          "a 64-bit integer (or float) buffer", ctx.where(CMQ))
+            return
         buf = buf.args[0]
     if isinstance(buf, App) and buf.fn in ("empty", "zeros", "ones", "full") and buf.kwd("dtype") == Const("narrowint"):
         chk.violation(rule, CMQ, "%s/%s:buffer-width" % (sc, ec), "the counts are stored into %s" % show(buf, 100),
